@@ -235,9 +235,11 @@ PROPS = {
         "needs_cli": True,
         "streams": [
             {"name": "cnf", "py": cli_streams.stream_c14, "quick": 250, "thorough": 5000},
+            {"name": "dimacs", "mode": "dimacs", "quick": 3000, "thorough": 100000, "args": []},
         ],
+        "lean_modules": ["Pumpkin.Model.Dimacs", "Pumpkin.Model.DimacsLayout"],
         "relevant": lambda kind, rec, case: True,
-        "level_text": "Proof: Check/Rup.lean is a verified clausal RUP checker — rup_sound (an accepted lemma holds in every model of the clause set, by an invariant over unit propagation), checkProof_sound / accepted_proof_refutes (an accepted proof file refutes the formula), needs_empty_clause; lit_sem ties the DIMACS reading of a literal to the Spec's 0-1 model. Tie to code (black box, CLI built from the working tree): generated CNFs (0-8 variables; empty formula, empty clause, units, duplicate and tautological clauses, dense unsatisfiable ones) are each written in three layouts (canonical; comments / tabs / blank lines / clauses broken over lines with comments in between / several clauses per line / CRLF; header with repeated blanks or as last line without newline); every s-line is judged against the oracle, every v-line must satisfy all clauses, the three verdicts must be equal, and with --proof-path the proof file must be accepted by the verified checker.",
+        "level_text": "Proof: Check/Rup.lean is a verified clausal RUP checker — rup_sound (an accepted lemma holds in every model of the clause set, by an invariant over unit propagation), checkProof_sound / accepted_proof_refutes (an accepted proof file refutes the formula), needs_empty_clause; lit_sem ties the DIMACS reading of a literal to the Spec's 0-1 model. Tie to code (black box, CLI built from the working tree): generated CNFs (0-8 variables; empty formula, empty clause, units, duplicate and tautological clauses, dense unsatisfiable ones) are each written in three layouts (canonical; comments / tabs / blank lines / clauses broken over lines with comments in between / several clauses per line / CRLF; header with repeated blanks or as last line without newline); every s-line is judged against the oracle, every v-line must satisfy all clauses, the three verdicts must be equal, and with --proof-path the proof file must be accepted by the verified checker. Model/Dimacs.lean mirrors the byte-level state machine of parsers/dimacs.rs (parse_chunk, finish_literal, finish_clause, init_formula, CNFHeader::from_str, complete); Model/DimacsLayout.lean proves layout_independent: every file of the layout family (comment lines and blank space before the header, arbitrary blank runs in the header, literals and terminators separated by arbitrary non-empty white-space runs, comment lines wherever a line starts, clauses broken over lines or several per line) is parsed to exactly the formula it denotes, for all formulas and all such layouts (two_layouts_agree). Tie: the real parser source is compiled into the harness with a recording sink and must give exactly the model's result (clauses or error kind) on generated files of the family, perturbations of them and junk, read in random chunk sizes.",
         "level_note": LEVEL_NOTE_COMMON + "The byte-level parser is exercised black-box; no Lean model of the DIMACS state machine yet.",
     },
     "C15": {
